@@ -41,37 +41,50 @@ def validate(pid, ks):
         sh('git -C %s worktree remove --force %s' % (R, wt)); shutil.rmtree(wt, ignore_errors=True)
 
 def run(name, tier='quick', props=None):
+    """runs the checks against a PRIVATE worktree of /repo HEAD with the seeded patch applied (VERIF_REPO), so that
+    /repo's own working tree is never touched; Gen/*.v are regenerated from /repo again afterwards"""
     d = V / 'seeded' / name
     pid = name.split('-')[0]
-    st = sh('git -C %s status --short' % R).stdout
-    if st.strip():
-        print('repo dirty, refusing', st); return
-    ap = sh('git -C %s apply %s' % (R, d / 'patch.diff'))
+    wt = '/tmp/run-%s' % name
+    sh('git -C %s worktree remove --force %s' % (R, wt)); shutil.rmtree(wt, ignore_errors=True)
+    sh('git -C %s worktree add --detach %s HEAD' % (R, wt))
+    patch = d / 'patch.diff'
+    if (d / 'patch-rebased.diff').exists():
+        patch = d / 'patch-rebased.diff'
+    ap = sh('git apply %s' % patch, cwd=wt)
+    if ap.returncode:
+        ap = sh('git apply -3 %s' % patch, cwd=wt)
+        if ap.returncode or 'conflict' in (ap.stdout + ap.stderr).lower() or sh('git diff --check', cwd=wt).returncode:
+            print(name, 'patch does not apply to HEAD (superseded by later fix: commits); recorded result kept')
+            sh('git -C %s worktree remove --force %s' % (R, wt)); shutil.rmtree(wt, ignore_errors=True)
+            return
+    env = dict(os.environ, PYTHONPATH=wt + '/src', PYTHONHASHSEED='0')
+    tests = sh('/venv/bin/python -m pytest -q -p no:cacheprovider -x css_parser_tests 2>&1 | tail -1', cwd=wt, env=env, timeout=900)
+    demo = sh('/venv/bin/python %s' % (d / 'demo.py'), cwd=wt, env=env, timeout=600)
     res = {}
     try:
-        if ap.returncode:
-            print(name, 'patch does not apply', ap.stderr); return
         for p in (props or [pid]):
             t0 = time.time()
-            r = sh('./check %s --tier %s' % (p, tier), cwd=str(V), timeout=3000)
+            r = sh('./check %s --tier %s' % (p, tier), cwd=str(V), timeout=3000, env=dict(os.environ, VERIF_REPO=wt))
             lines = [l for l in r.stdout.splitlines() if l.startswith('VIOLATION')]
             stages = [l.strip() for l in r.stdout.splitlines() if l.strip().startswith(('broken ', 'violation:'))]
-            rep = None
             if lines and 'replay=' in lines[0]:
                 rp = lines[0].split('replay=')[1].split()[0]
                 try:
-                    rep = json.loads(open(rp).read())
                     shutil.copy(rp, d / ('replay-%s.json' % p))
                 except Exception:
                     pass
-            res[p] = {'rc': r.returncode, 'violation_line': lines[:1], 'stages': stages[:8], 'wall_s': round(time.time() - t0),
-                      'found_input': bool(lines) and 'no-failing-input-found' not in lines[0]}
-            print(name, p, 'rc=%d' % r.returncode, lines[:1], stages[:4])
+            res[p] = {'rc': r.returncode, 'violation_line': lines[:1], 'stages': stages[:12], 'wall_s': round(time.time() - t0),
+                      'found_input': bool(lines) and 'no-failing-input-found' not in lines[0],
+                      'repo_head': sh('git -C %s rev-parse --short HEAD' % R).stdout.strip(),
+                      'suite_with_change': tests.stdout.strip()[-40:], 'demo_exit_with_change': demo.returncode}
+            print(name, p, 'rc=%d' % r.returncode, 'tests=%r demo=%d' % (tests.stdout.strip()[-12:], demo.returncode), lines[:1], [s.split(':')[0] for s in stages[:6]])
     finally:
-        sh('git -C %s checkout -- .' % R)
+        sh('git -C %s worktree remove --force %s' % (R, wt)); shutil.rmtree(wt, ignore_errors=True)
     old = json.loads((d / 'result.json').read_text()) if (d / 'result.json').exists() else {}
     old.setdefault(tier, {}).update(res)
     (d / 'result.json').write_text(json.dumps(old, indent=1))
+
 
 if __name__ == '__main__':
     if sys.argv[1] == 'validate':
